@@ -1,4 +1,4 @@
-\* RESIDUAL, EXPECTED TO BE VIOLATED: a confirmation query cancelled in flight by the early-exit shutdown may raise OSError out of run_test (modelled, not forced by the harness)
+\* MUTANT (code before e7511fd: the OSError of a confirmation query cancelled in flight escapes run_test) - TLC MUST find a violation of OrderIndependence
 SPECIFICATION Spec
 CONSTANTS
   MinPaths = 1
@@ -18,5 +18,6 @@ CONSTANTS
   Coarse = FALSE
   MutPrecedence = FALSE
   MutNoCatch = FALSE
+  MutKilledEscapes = TRUE
   KilledMayRaise = TRUE
 INVARIANTS OrderIndependence
